@@ -156,7 +156,8 @@ where
     let r = catch(move || if swap { a.swap_remove(idx) } else { a.remove(idx) });
     if idx >= n {
         return match r {
-            Err(PanicKind::Other(m)) if m.contains("Index out of bounds") => {
+            // the property says "panic"; the wording of the message is not part of it
+            Err(PanicKind::Other(_)) => {
                 ledger::check_exact(&[], 0).map_err(|e| format!("after the out-of-range panic: {e}"))?;
                 Ok(CaseInfo::new(true, "out-of-range-panic"))
             }
